@@ -107,11 +107,17 @@ func (t *TransactionManager) GetTransaction(id string) (*Transaction, error) {
 	return t.transaction, nil
 }
 
-func (t *TransactionManager) Rollback(ctx context.Context, trans *Transaction) error {
+// RollbackExpired is called when the rollback timer of the given transaction fired.
+// The rollback is only performed if that transaction is still the ongoing one, it might
+// have been confirmed or cancelled (and even be followed by a new transaction) in the meantime.
+func (t *TransactionManager) RollbackExpired(ctx context.Context, trans *Transaction) error {
 	verifhook.Yield("timer.lock", trans.transactionId)
 	t.tmMutex.Lock()
 	defer t.tmMutex.Unlock()
-	_, err := t.rollbacker.TransactionRollback(ctx, trans, false)
+	if t.transaction != trans {
+		return nil
+	}
+	_, err := t.rollbacker.TransactionRollback(ctx, trans.GetRollbackTransaction(), false)
 
 	t.transaction = nil
 
